@@ -7,4 +7,3 @@ import Eliot.Properties.C02
 #print axioms Sys.C02.child_extends_parent
 #print axioms Sys.C02.reserved_position_unique
 #print axioms Sys.C02.message_at_slot
-#print axioms Sys.C02.skeleton_E6_order
